@@ -34,7 +34,7 @@ EXPLANATION = ("The console's posting, finishing and sending helpers are loop-fr
                "are folded over the small state (token present, cursor, pending length) and checked for guards, field writers and "
                "operand provenance.")
 CONFIGS = ['def', 'alloc', 'def-rel']    # these drivers need the `alloc` feature
-FLOORS = {'reader_fns': {'*': 4, 'alloc': 1}, 'trait_writers': {'*': 2, 'alloc': 1}, 'poster_fns': 1, 'finisher_fns': 1, 'send_fns': 1}
+FLOORS = {'consumer_fns': {'*': 2, 'alloc': 1}, 'reader_fns': {'*': 4, 'alloc': 1}, 'trait_writers': {'*': 2, 'alloc': 1}, 'poster_fns': 1, 'finisher_fns': 1, 'send_fns': 1}
 DRV = 'device::console::VirtIOConsole'
 
 
@@ -117,6 +117,7 @@ def run(F, R):
         s3_send(F, R, M, b, roles, rxq)
         s3b_send_always_submits(F, R, M, b, roles)
     s5_trait_writers(F, R, set(x['id'] for x in senders))
+    s11_no_silent_consumption(F, R, usz)
     s7_reader_arithmetic(F, R, usz, list(bufs)[0] if len(bufs) == 1 else None, set(x['id'] for x in posters + finishers + direct_finishers))
     from .C19 import q6_no_access_after_post
     q6_no_access_after_post(F, R, M, roles, rule='S6', only=lambda bb: bb.get('impl_adt') == DRV or DRV in (bb.get('impl_self') or ''))
@@ -349,6 +350,48 @@ def s3_send(F, R, M, b, roles, rxq):
         R.check(ok and src_ok and q != rxq, 'S3', '%s:send-shape' % b['id'], site(sg, n), 'one device-readable element = the caller\'s bytes, nothing writable, on the transmit queue',
                 'send must place exactly the caller\'s bytes on the transmit queue: readable=%s writable=%s queue=%s caller-bytes=%s' % (
                     len(ins) if ins is not None else None, len(outs) if outs is not None else None, q, src_ok))
+
+
+def s11_no_silent_consumption(F, R, usz):
+    """A byte taken out of the receive buffer is a byte handed to the caller: the functions that advance the read cursor (cursor =
+    cursor + n) are called only from functions that themselves return bytes (a byte, a slice, a count of bytes copied out) - or
+    with their "pop" flag constant false.  A readiness / interrupt query that pops a byte and reports only a bool loses it."""
+    consumers = {}
+    for b in F.bodies.values():
+        if b.get('impl_adt') != DRV or not F.handwritten(b) or b['kind'] != 'AssocFn':
+            continue
+        sg0 = supergraph(F, b['id'], tag='flat', max_depth=0)
+        for nd in sg0.nodes:
+            if nd.kind != 'assign' or not nd.d['place']['p'] or not isinstance(nd.d['place']['p'][-1], dict) or nd.d['place']['p'][-1].get('n') not in usz:
+                continue
+            v = sg0.sym.rvalue(nd.id, nd.d['rv'])
+            v = v[1] if v[0] == 'field' else v
+            f_ = nd.d['place']['p'][-1]['n']
+            if v[0] == 'bin' and v[1] in ('Add', 'AddWithOverflow') and any(x[0] in ('load', 'load0') and x[1][2] and x[1][2][-1][0] == 'f' and x[1][2][-1][1] == f_ for x in subterms(v)):
+                consumers[b['id']] = b
+    n = 0
+    for b in sorted(F.bodies.values(), key=lambda x: x['id']):
+        if 'device::console' not in b['id'] or not F.handwritten(b) or b['kind'] != 'AssocFn' or b['id'] in consumers:
+            continue
+        sg0 = supergraph(F, b['id'], tag='flat', max_depth=0)
+        S0 = sg0.sym
+        calls = [c for c in sg0.calls(lambda d: d.get('fn') in consumers)]
+        if not calls:
+            continue
+        n += 1
+        rty = b.get('sig', '').split('->')[-1]
+        carries = 'u8' in rty or 'usize' in rty
+        bad = None
+        for c in calls:
+            flags = [fold_const(S0.operand(c.id, a)) for a, ty in zip(c.d['args'], c.d.get('arg_tys', [])) if ty == 'bool']
+            if flags and all(f_ == 0 for f_ in flags):
+                continue      # peek
+            if not carries:
+                bad = '%s calls %s (which advances the read cursor) but returns %s: the byte it takes out of the buffer is never delivered' % (
+                    b['name'], consumers[c.d['fn']]['name'], rty.strip()[:50])
+        R.check(bad is None, 'S11', '%s:no-silent-consumption' % b['id'], fn_site(F, b['id']), 'cursor-advancing readers are called only where the bytes are returned',
+                bad or '')
+    R.count('consumer_fns', len(consumers))
 
 
 def s3b_send_always_submits(F, R, M, b, roles):
